@@ -277,17 +277,18 @@ class Pipeline:
             ll = os.path.join(d, 'prog_ll_' + tag); cc = os.path.join(d, 'prog_c_' + tag)
             weak = self.weak_externs(meta)
             san = ['-fsanitize=address', '-fno-omit-frame-pointer'] if asan else []
-            r = sh([CLANG, '-O0', '-x', 'ir', os.path.join(d, 'module.ll'), '-x', 'c'] + common + san + [weak, '-lm', '-o', ll], timeout=600)
+            r = sh([CLANG, '-O0', '-x', 'ir', os.path.join(d, 'module.ll'), '-x', 'c'] + common + san + [weak, '-lm', '-lpthread', '-o', ll], timeout=600)
             if r['rc'] != 0: raise BuildError('native ll link (%s): %s' % (q.entry, r['err'][-3000:]))
             if not asan:
-                r = sh(['gcc', '-O0', '-fwrapv', '-fno-strict-aliasing', '-ffp-contract=off', os.path.join(d, 'module.c')] + common + [weak, '-lm', '-o', cc], timeout=600)
+                r = sh(['gcc', '-O0', '-fwrapv', '-fno-strict-aliasing', '-ffp-contract=off', os.path.join(d, 'module.c')] + common + [weak, '-lm', '-lpthread', '-o', cc], timeout=600)
                 if r['rc'] != 0: raise BuildError('native c link (%s): %s' % (q.entry, r['err'][-3000:]))
             return ll, cc
         return self.once(key, build)
 
     LIBC = set('''malloc free calloc realloc memcpy memmove memset memcmp bcmp strlen strcmp abort sqrt fabs floor ceil fmod cos sin tan acos
         asin atan atan2 pow exp log log2 log10 fmin fmax round trunc copysign rint nearbyint hypot cbrt tgamma lgamma nanosleep
-        __errno_location printf puts putchar fprintf snprintf sprintf fwrite fflush exit _exit'''.split())
+        __errno_location printf puts putchar fprintf snprintf sprintf fwrite fflush exit _exit pthread_mutex_lock pthread_mutex_unlock
+        pthread_mutex_init pthread_mutex_destroy pthread_once __pthread_key_create pthread_create pthread_join pthread_self'''.split())
 
     def weak_externs(self, meta):
         """weak fatal definitions for externs that are referenced (vtables) but never modelled; calling one is reported"""
@@ -353,7 +354,7 @@ class Pipeline:
                 v = st.get('value', {})
                 b = v.get('binary')
                 if b is None: continue
-                if vals and lastkey == k and st.get('assignmentType') != 'actual-parameter' and lastdecl:
+                if vals and lastkey == k and k[0] != 'module.c' and lastdecl:
                     vals[-1] = (sites[k], int(b, 2))      # declaration-with-initialiser shows up as two steps
                 else:
                     vals.append((sites[k], int(b, 2)))
